@@ -19,6 +19,10 @@ Definition exclusive (h : list buf) (r : repr) : Prop :=
   | Static _ _ => False
   end.
 
+(* exclusive, and no handle outside this world either (the sequential case, or after all foreign owners are known to
+   be gone): the premise of every "edits in place" clause *)
+Definition xcl (m : mem) (r : repr) : Prop := quiet m /\ exclusive (heap m) r.
+
 Record step_ok (m : mem) (own : bufid -> N) (r : repr) (m' : mem) (r' : repr) : Prop := {
   so_env : same_env m m';
   so_mi : MI (heap m') (adj own r r');
@@ -162,7 +166,7 @@ Record reserve_post (m : mem) (own : bufid -> N) (r : repr) (add : N) (m' : mem)
   rp_len : repr_len r' = repr_len r;
   rp_ok : ok = true -> exclusive (heap m') r' /\ repr_len r + add <= cap_of m' r';
   rp_fail : ok = false -> r' = r /\ heap m' = heap m;
-  rp_fits : exclusive (heap m) r -> repr_len r + add <= cap_of m r ->
+  rp_fits : xcl m r -> repr_len r + add <= cap_of m r ->
             ok = true /\ r' = r /\ heap m' = heap m /\ nreq m' = nreq m;
   rp_grow : ok = true ->
             (r' = r /\ heap m' = heap m /\ nreq m' = nreq m)
@@ -188,7 +192,7 @@ Proof. intros Hh. destruct r; cbn [cap_of]; rewrite ?Hh; reflexivity. Qed.
 Lemma reserve_post_fail m own r add m' :
   MI (heap m) own -> handle_ok (heap m) (statics m) r -> counted own r ->
   same_env m m' -> heap m' = heap m ->
-  ~ (exclusive (heap m) r /\ repr_len r + add <= cap_of m r) ->
+  ~ (xcl m r /\ repr_len r + add <= cap_of m r) ->
   reserve_post m own r add m' r false.
 Proof.
   intros HM Hr Hc He Hh Hno. split.
@@ -242,7 +246,7 @@ Proof.
     cbn [repr_len] in *. pose proof Hr as Hr0. destruct Hr as (H16 & Hv & Htag).
     unfold cond_reserve_inline_grow. rewrite max_inline_16.
     destruct (N.ltb_spec 16 (inline_len bs + add)) as [Hgrow|Hfit].
-    + assert (Hno : ~ (exclusive (heap m) (Inline bs) /\ repr_len (Inline bs) + add <= cap_of m (Inline bs))).
+    + assert (Hno : ~ (xcl m (Inline bs) /\ repr_len (Inline bs) + add <= cap_of m (Inline bs))).
       { intros (_ & Hf). cbn [cap_of repr_len] in Hf. rewrite max_inline_16 in Hf. lia. }
       apply wp_bind.
       assert (Htl : len (inline_text bs) = inline_len bs) by (apply inline_text_length; auto).
@@ -269,15 +273,15 @@ Proof.
     cbn [repr_len] in *. pose proof Hr as Hr0. destruct Hr as (x & Hb & Hl & Hlc & Hd & Hv).
     destruct (MI_lookup _ _ _ _ HM Hb Hl) as (Hw & Hcx & Hox).
     assert (Hcapx : cap_of m (Heap b l) = cap x) by (cbn [cap_of]; rewrite Hb; reflexivity).
-    apply wp_bind. eapply is_unique_wp; [exact Hb|exact Hl|]. intros m1 He1 Hh1 Hn1. unfold lift.
+    apply wp_bind. eapply is_unique_wp; [exact Hb|exact Hl|lia|]. intros m1 u He1 Hh1 Hn1 Hu1 Huq. unfold lift.
     assert (Hb1 : nth_error (heap m1) b = Some x) by (rewrite Hh1; exact Hb).
-    destruct (N.eqb_spec (count x) 1) as [Hu|Hs].
+    destruct u; [assert (Hu : count x = 1) by (apply Hu1; reflexivity)|].
     + (* unique *)
       assert (Hex : exclusive (heap m) (Heap b l)) by (exists x; auto).
       apply wp_bind. eapply hdr_cap_wp; [exact Hb1|exact Hl|]. unfold lift.
       unfold cond_reserve_enough. destruct (N.leb_spec (l + add) (cap x)) as [Hfit|Hgrow].
       * apply wp_ret. apply HQ. apply reserve_post_same; auto. rewrite Hcapx. exact Hfit.
-      * assert (Hno : ~ (exclusive (heap m) (Heap b l) /\ repr_len (Heap b l) + add <= cap_of m (Heap b l))).
+      * assert (Hno : ~ (xcl m (Heap b l) /\ repr_len (Heap b l) + add <= cap_of m (Heap b l))).
         { intros (_ & Hf). rewrite Hcapx in Hf. cbn [repr_len] in Hf. lia. }
         apply wp_bind. eapply heap_realloc_wp; [exact Hb1|exact Hl|exact Hw| | |].
         -- intros Hbig. unfold lift. apply wp_ret. apply HQ. apply reserve_post_fail; auto.
@@ -313,8 +317,9 @@ Proof.
            ++ intros H1 H2. exfalso. apply Hno. auto.
            ++ intros _. right. left. cbn [is_heap cap_of]. rewrite Hb2. repeat split; auto. congruence.
     + (* shared: copy out, then release *)
-      assert (Hno : ~ (exclusive (heap m) (Heap b l) /\ repr_len (Heap b l) + add <= cap_of m (Heap b l))).
-      { intros ((y & Hy & _ & Hy1) & _). rewrite Hb in Hy. injection Hy as <-. contradiction. }
+      assert (Hno : ~ (xcl m (Heap b l) /\ repr_len (Heap b l) + add <= cap_of m (Heap b l))).
+      { intros ((Hq & y & Hy & _ & Hy1) & _). rewrite Hb in Hy. injection Hy as <-.
+        specialize (Huq Hq). rewrite Hy1 in Huq. discriminate. }
       apply wp_bind. eapply read_heap_wp; [exact Hb1|exact Hl|lia|]. intros m2 He2 Hh2 Hn2. unfold lift.
       change (N.to_nat 0) with 0%nat. rewrite slice_0.
       set (t := firstn (N.to_nat l) (data x)) in *.
@@ -330,7 +335,7 @@ Proof.
       * intros m3 He3 Hh3 Hn3 Hcap. unfold lift. rewrite Hlt in *.
         apply wp_bind. eapply replace_inner_heap_wp.
         { rewrite Hh3, Hh12. apply nth_error_app_l. exact Hb. }
-        { exact Hl. } { exact Hw. }
+        { exact Hl. } { exact Hw. } { lia. }
         intros m4 He4 Hh4 Hn4. unfold lift. apply wp_ret.
         rewrite Hh12.
         assert (G1 : l <= amortized_growth l add) by (apply growth_ge_len; unfold MAX_LEN, USIZE_MAX in *; lia).
@@ -349,8 +354,8 @@ Proof.
         -- intros _. right. left. cbn [is_heap]. rewrite S4. repeat split; auto. lia.
   - (* static *)
     cbn [repr_len] in *. pose proof Hr as Hr0. destruct Hr as (t0 & Hs & Hl & Hmax & Hv).
-    assert (Hno : ~ (exclusive (heap m) (Static s l) /\ repr_len (Static s l) + add <= cap_of m (Static s l))).
-    { intros (Hex & _). exact Hex. }
+    assert (Hno : ~ (xcl m (Static s l) /\ repr_len (Static s l) + add <= cap_of m (Static s l))).
+    { intros ((_ & Hex) & _). exact Hex. }
     apply wp_bind. eapply read_static_wp; [exact Hs|lia|]. intros m1 He1 Hh1 Hn1. unfold lift.
     change (N.to_nat 0) with 0%nat. rewrite slice_0.
     set (t := firstn (N.to_nat l) t0) in *.
@@ -406,7 +411,7 @@ Record modifiable_post (m : mem) (own : bufid -> N) (r : repr) (m' : mem) (r' : 
   mp_len : repr_len r' = repr_len r;
   mp_ok : ok = true -> exclusive (heap m') r';
   mp_fail : ok = false -> r' = r /\ heap m' = heap m;
-  mp_same : exclusive (heap m) r -> ok = true /\ r' = r /\ heap m' = heap m /\ nreq m' = nreq m;
+  mp_same : xcl m r -> ok = true /\ r' = r /\ heap m' = heap m /\ nreq m' = nreq m;
 }.
 
 Lemma filled_exact c t : len t = c -> filled c t = t.
@@ -414,7 +419,7 @@ Proof. intros <-. unfold filled. rewrite N.sub_diag. unfold poison. change (N.to
 
 Lemma modifiable_post_fail m own r m' :
   MI (heap m) own -> handle_ok (heap m) (statics m) r -> counted own r ->
-  same_env m m' -> heap m' = heap m -> ~ exclusive (heap m) r ->
+  same_env m m' -> heap m' = heap m -> ~ xcl m r ->
   modifiable_post m own r m' r false.
 Proof.
   intros HM Hr Hc He Hh Hno. split.
@@ -450,12 +455,13 @@ Proof.
   - apply wp_ret. apply HQ. apply modifiable_post_same; auto. exact I.
   - cbn [repr_len] in *. pose proof Hr as Hr0. destruct Hr as (x & Hb & Hl & Hlc & Hd & Hv).
     destruct (MI_lookup _ _ _ _ HM Hb Hl) as (Hw & Hcx & Hox).
-    apply wp_bind. eapply is_unique_wp; [exact Hb|exact Hl|]. intros m1 He1 Hh1 Hn1. unfold lift.
+    apply wp_bind. eapply is_unique_wp; [exact Hb|exact Hl|lia|]. intros m1 u He1 Hh1 Hn1 Hu1 Huq. unfold lift.
     assert (Hb1 : nth_error (heap m1) b = Some x) by (rewrite Hh1; exact Hb).
-    destruct (N.eqb_spec (count x) 1) as [Hu|Hs].
+    destruct u; [assert (Hu : count x = 1) by (apply Hu1; reflexivity)|].
     + apply wp_ret. apply HQ. apply modifiable_post_same; auto. exists x. auto.
-    + assert (Hno : ~ exclusive (heap m) (Heap b l)).
-      { intros (y & Hy & _ & Hy1). rewrite Hb in Hy. injection Hy as <-. contradiction. }
+    + assert (Hno : ~ xcl m (Heap b l)).
+      { intros (Hq & y & Hy & _ & Hy1). rewrite Hb in Hy. injection Hy as <-.
+        specialize (Huq Hq). rewrite Hy1 in Huq. discriminate. }
       apply wp_bind. eapply read_heap_wp; [exact Hb1|exact Hl|lia|]. intros m2 He2 Hh2 Hn2. unfold lift.
       change (N.to_nat 0) with 0%nat. rewrite slice_0.
       set (t := firstn (N.to_nat l) (data x)) in *.
@@ -470,7 +476,7 @@ Proof.
       * intros m3 He3 Hh3 Hn3. unfold lift. rewrite Hlt in *.
         apply wp_bind. eapply replace_inner_heap_wp.
         { rewrite Hh3, Hh12. apply nth_error_app_l. exact Hb. }
-        { exact Hl. } { exact Hw. }
+        { exact Hl. } { exact Hw. } { lia. }
         intros m4 He4 Hh4 Hn4. unfold lift. apply wp_ret. rewrite Hh12.
         assert (G1 : l <= l) by lia.
         assert (G2 : same_env m m3) by (eapply same_env_trans; eauto).
@@ -485,7 +491,7 @@ Proof.
         -- discriminate.
         -- intros H. contradiction.
   - cbn [repr_len] in *. pose proof Hr as Hr0. destruct Hr as (t0 & Hs & Hl & Hmax & Hv).
-    assert (Hno : ~ exclusive (heap m) (Static s l)) by (intros H; exact H).
+    assert (Hno : ~ xcl m (Static s l)) by (intros (_ & H); exact H).
     apply wp_bind. eapply read_static_wp; [exact Hs|lia|]. intros m1 He1 Hh1 Hn1. unfold lift.
     change (N.to_nat 0) with 0%nat. rewrite slice_0.
     set (t := firstn (N.to_nat l) t0) in *.
